@@ -8,7 +8,7 @@
 (* effects and the property predicates come from StackFS.                  *)
 (*                                                                         *)
 (*  NewStack/reload   R_Read R_Open R_Reread R_Gc                stack.go reload/reloadOnce *)
-(*  Add/Addition      A_Lock A_UpToDate A_UnlockStale A_Temp A_Check                         *)
+(*  Add/Addition      A_Lock A_UpToDate A_UnlockStale A_Temp A_Check A_CheckNew                       *)
 (*                    A_RenameTab A_RmTmp A_Write A_Commit A_CloseRm A_CloseUnlock            *)
 (*  compactRange      K_Lock K_UpToDate K_SubLock K_Unlock K_Temp K_Relock K_Rebase           *)
 (*                    K_RenameTab K_Write K_Commit K_Delete K_ClTmp K_ClSub K_ClLock          *)
@@ -248,11 +248,19 @@ A_Temp(h) ==
   /\ ApiUnch /\ KeepMem
   /\ Act(h, "A_Temp", "tempfile", PKTmp, "ok")
 
-A_Check(h) ==           \* checkAddition reads the temporary back
+A_Check(h) ==           \* checkAddition reads the temporary back ...
   /\ pc[h] = "a_check"
   /\ FsNop /\ ApiUnch /\ KeepCtr /\ KeepMem
-  /\ Go(h, "a_rename_tab", loc[h])
+  /\ LET q == SelectSeq(loc[h].names, LAMBDA n : n \in loc[h].newTabs) IN
+     IF q = <<>> THEN Go(h, "a_rename_tab", loc[h]) ELSE Go(h, "a_check_new", [loc[h] EXCEPT !.gcq = q])
   /\ Act(h, "A_Check", "open", PKTmp, ExistRes(loc[h].tmp))
+
+A_CheckNew(h) ==        \* ... and opens the tables added earlier in the same transaction (validated against each other)
+  /\ pc[h] = "a_check_new"
+  /\ FsNop /\ ApiUnch /\ KeepCtr /\ KeepMem
+  /\ LET l == loc[h]  n == Head(l.gcq) IN
+     /\ IF Tail(l.gcq) = <<>> THEN Go(h, "a_rename_tab", [l EXCEPT !.gcq = <<>>]) ELSE Go(h, "a_check_new", [l EXCEPT !.gcq = Tail(@)])
+     /\ Act(h, "A_CheckNew", "open", PKTab, ExistRes(n))
 
 A_RenameTab(h) ==
   /\ pc[h] = "a_rename_tab"
@@ -570,7 +578,7 @@ Crash(h) ==
 Step(h) ==
   \/ Calls(h)
   \/ R_Read(h) \/ R_Open(h) \/ R_Reread(h) \/ R_Gc(h)
-  \/ A_Lock(h) \/ A_UpToDate(h) \/ A_UnlockStale(h) \/ A_Temp(h) \/ A_Check(h) \/ A_RenameTab(h) \/ A_RmTmp(h)
+  \/ A_Lock(h) \/ A_UpToDate(h) \/ A_UnlockStale(h) \/ A_Temp(h) \/ A_Check(h) \/ A_CheckNew(h) \/ A_RenameTab(h) \/ A_RmTmp(h)
   \/ A_Write(h) \/ A_Commit(h) \/ A_CloseRm(h) \/ A_CloseUnlock(h) \/ A_Done(h)
   \/ K_Lock(h) \/ K_UpToDate(h) \/ K_SubLock(h) \/ K_Unlock(h) \/ K_Temp(h) \/ K_Relock(h) \/ K_Rebase(h)
   \/ K_RenameTab(h) \/ K_Write(h) \/ K_Commit(h) \/ K_RmDest(h) \/ K_Delete(h) \/ K_Reloaded(h)
